@@ -282,6 +282,7 @@ type rzState struct {
 	Cleared bool
 	Bcast   bool
 	InMu    bool // clear or broadcast happened inside the resizeMu critical section
+	EarlyB  bool // a broadcast happened before the clear, inside the resizeMu critical section that is still open
 }
 
 func c13L3(r *Run, rep *core.Report) {
@@ -309,6 +310,7 @@ func c13L3(r *Run, rep *core.Report) {
 				}
 				if ev := r.M.LockEventOf(in); ev != nil && ev.Class == "resize" {
 					s.Mu = ev.Acquire
+					s.EarlyB = false // a broadcast counts for a later clear only inside one critical section
 					return []rzState{s}
 				}
 				if c, ok := in.(ssa.CallInstruction); ok {
@@ -331,6 +333,11 @@ func c13L3(r *Run, rep *core.Report) {
 									if s.Mu {
 										s.InMu = true
 									}
+									if s.EarlyB && s.Mu {
+										// ... unless broadcast and clear sit in one resizeMu critical section: a woken waiter cannot
+										// re-test the flag before the section ends, by then the flag is clear - the order inside does not matter
+										s.Bcast = true
+									}
 								} else {
 									ctx.Report(in, "flag-write", "resize flag written by something other than the CAS and the owner's store of 0")
 								}
@@ -344,6 +351,8 @@ func c13L3(r *Run, rep *core.Report) {
 							if s.Mu {
 								s.InMu = true
 							}
+						} else if s.Mu {
+							s.EarlyB = true
 						}
 					case "(*sync.Cond).Signal":
 						ctx.Report(in, "signal", "Cond.Signal wakes one waiter only; every writer parked in the wait function must be woken")
